@@ -39,7 +39,8 @@ class KeyGen:
         self.rng, self.mode = rng, mode
         self.pool = []
         n = rng.choice([8, 40, 70, 120] if profile != "small" else [6, 12, 40])
-        style = rng.below(4)
+        style = rng.below(5) if mode[1] == "1" else rng.below(4)
+        wide = rng.choice([114, 115, 116, 117, 130])
         for i in range(n):
             if mode[0] == "1":
                 base = rng.choice([0, 100, 1 << 20, (1 << 31) - 200, (1 << 40)])
@@ -52,6 +53,10 @@ class KeyGen:
                     k = ("%d.%d" % (i // 4, (i % 4) * 25 + 1)).encode()
                 elif style == 2:
                     k = ("-%d" % (i * 3 + 1)).encode() if i % 2 else str(i * 3 + 1).encode()
+                elif style == 4:
+                    # decimal texts around and beyond the 115 bytes a node caches of its lowest key: the first 115 characters
+                    # of a longer text are another number
+                    k = ("%0*d" % (wide, i * 3 + 1)).encode()
                 else:
                     k = ("%d.%03d" % (rng.below(50), rng.below(999) + 1)).encode().rstrip(b"0")
             else:
@@ -602,8 +607,13 @@ class Oracle:
                 return
             cs.pop("after_fail", None)
             if "pending_move" in cs:
-                # two moves without a read in between: the oracle does not know the intermediate position
-                cs.update(last=None, stable=None)
+                if cs["pending_move"][1] == "OK":
+                    # two moves without a read in between: the oracle does not know the intermediate position
+                    cs.update(last=None, stable=None)
+                else:
+                    # the earlier move found nothing: the scan had reached its end in that direction (nothing that existed
+                    # throughout may lie ahead there) and the cursor is where it was - the new move continues from there
+                    self.after_move(cs, d, cs["pending_move"], None, bad, keep=True)
             cs["pending_move"] = (mv, o[0])
             cs["cur"] = None
         elif op in ("cget", "ckey", "cval", "ccopyval", "ccopykey", "cmatch"):
@@ -718,7 +728,7 @@ class Oracle:
             return sk(y) < sk(x)
         return after
 
-    def after_move(self, cs, d, pm, lk, bad):
+    def after_move(self, cs, d, pm, lk, bad, keep=False):
         mv, rc = pm
         last = cs.get("last")
         stable = cs.get("stable")
@@ -736,7 +746,8 @@ class Oracle:
                 if rest:
                     bad("scan ended although %d record(s) that existed throughout lie ahead of the cursor, e.g. %s" % (
                         len(rest), self.fmt(d, rest[0])[:60]))
-                cs.update(last=None, stable=None)
+                if not keep:
+                    cs.update(last=None, stable=None)
             return
         if not ahead(last, lk) and (lk in stable or (lk == last and not cs.get("last_gone"))):
             bad("cursor move did not advance in key order (repeats or goes back): now at %s" % self.fmt(d, lk)[:60])
@@ -760,11 +771,16 @@ class Oracle:
                 bad("cursor %s on a key with no match must report NOTFOUND" % ("EQ" if mv == 5 else "GE"))
             if not opening and c in self.cur:
                 # a positioning call that found nothing: the cursor is where it was or nowhere - never on a third record
+                # (so the scan position `last` and the set of keys that existed throughout stay as they are: a following NEXT / PREV
+                # continues the scan from there and must not skip a record that lay ahead)
                 was = self.cur[c].get("cur")
-                self.cur[c].update(last=None, stable=None, cur=None)
-                if was is not None and "pending_move" not in self.cur[c]:
+                pm = self.cur[c].get("pending_move")
+                if pm is not None and pm[1] == "OK":
+                    self.cur[c].update(last=None, stable=None)    # an unread successful move before it: position unknown to the oracle
+                self.cur[c]["cur"] = None
+                if was is not None and pm is None:
                     self.cur[c]["after_fail"] = was
-                elif "after_fail" in self.cur[c] and "pending_move" in self.cur[c]:
+                elif "after_fail" in self.cur[c] and pm is not None:
                     self.cur[c].pop("after_fail")
             return
         if o[0] != "OK":
@@ -1037,7 +1053,7 @@ def clean(lines):
             break
 
 
-def drive(run, profile, nscripts, nops, theorem_pid=None, asan=False, reopen=False, extra_check=None, audit=False, geometry=0, boundary=0, bigfile=0, slack=True, destroy=0, thin=0, uplink=0, probe=0, hugekey=0, ringrun=0):
+def drive(run, profile, nscripts, nops, theorem_pid=None, asan=False, reopen=False, extra_check=None, audit=False, geometry=0, boundary=0, bigfile=0, slack=True, destroy=0, thin=0, uplink=0, probe=0, hugekey=0, ringrun=0, skipfail=0):
     """common body of the KV checks"""
     proofs_ok = run.proofs(theorem_pid or run.pid)
     impl = vlib.build_harness("h_kv", "asan" if asan else "plain")
@@ -1074,6 +1090,10 @@ def drive(run, profile, nscripts, nops, theorem_pid=None, asan=False, reopen=Fal
             rng = run.rng.fork()
             ls, meta = thin_script(rng, os.path.join(work, "t%d.db" % n), wal=rng.below(2))
             scripts.append(("thin%d" % n, ls, meta))
+        for n in range(skipfail or 0):
+            rng = run.rng.fork()
+            ls, meta = skipfail_script(rng, os.path.join(work, "sf%d.db" % n), wal=rng.below(2))
+            scripts.append(("skipfail%d" % n, ls, meta))
         for n in range(ringrun or 0):
             rng = run.rng.fork()
             ls, meta = ringrun_script(rng, os.path.join(work, "rr%d.db" % n), wal=rng.below(2))
@@ -1376,6 +1396,37 @@ def thin_script(rng, path, wal=0):
         L.append("get 0 %s 0" % hexb(b"k%05d" % i))
     L += ["dump 0", "struct 0", "dump 1", "sync", "close", "open %s %d 0 0 0" % (path, wal), "db 0 1 000", "db 1 2 000", "dump 0", "dump 1", "getmeta 1 10000", "close"]
     return L, {"modes": ["000", "000"], "wal": wal}
+
+
+def skipfail_script(rng, path, wal=0):
+    """a record is deleted under a cursor (by key or through the cursor itself) - the cursor then owes a step to its
+    neighbour - and the NEXT call made through it finds nothing: a key probe for an absent key, NEXT at the end of the scan,
+    PREV at its beginning; after that the scan is continued in either direction and must not skip a record that was there
+    all the time.  Small databases (one node, a few nodes), first / middle / last records."""
+    L = ["open %s %d 0 1 0" % (path, wal), "db 0 1 000"]
+    n = rng.choice([3, 5, 33, 70])
+    for i in range(n):
+        L.append("put 0 %s 0 %s 0 0" % (hexb(b"k%03d" % (2 * i)), hexb(b"v%d" % i)))
+    for c in range(rng.choice([1, 2, 3])):
+        at = rng.choice([0, 0, n - 1, n - 1, 1, n // 2, rng.below(n)])
+        key = hexb(b"k%03d" % (2 * at))
+        L += ["put 0 %s 0 76 0 0" % key, "copen %d 0 5 %s 0" % (c, key), "cget %d" % c]
+        L.append(rng.choice(["del 0 %s 0" % key, "cdel %d" % c]))
+        for _ in range(rng.choice([1, 1, 2, 4])):
+            how = rng.choice(["probe", "probe-ge", "next", "prev"])
+            if how == "probe":
+                L.append("ctokey %d 5 %s 0" % (c, hexb(b"k%03d" % (2 * rng.below(n) + 1))))
+            elif how == "probe-ge":
+                L.append("ctokey %d 6 %s 0" % (c, hexb(b"z")))
+            else:
+                L.append("cto %d %d" % (c, 3 if how == "next" else 4))      # fails when the cursor is at that end of the scan
+        d1 = rng.choice([3, 4])
+        for _ in range(rng.choice([1, 2, 40])):
+            L += ["cto %d %d" % (c, d1), "cget %d" % c]
+        for _ in range(rng.choice([1, 3, 80])):
+            L += ["cto %d %d" % (c, 7 - d1), "cget %d" % c]
+    L += ["dump 0", "close"]
+    return L, {"modes": ["000"], "wal": wal}
 
 
 def ringrun_script(rng, path, wal=0):
